@@ -226,6 +226,10 @@ def run(chk, tier):
     chk.assumptions += ['FlowState.hops has MAX_TTL entries (FlowState::new), probes carry ttl ≤ MAX_TTL (C06.R1 + Builder), ttl ≥ %d' % lower,
                         'D4: rounds come from Strategy, for which lowest_ttl − 1 ≤ highest_ttl whenever both are non-zero (R3 + C06)']
     ALLOW10 = [
+        (r'^State::(hops|hops_for_flow|is_in_round|is_target|round|round_count|target_hop)$', 'api', 'index',
+         'map lookup by flow id: the map always holds the default flow and every id the registry issued (R1); callers pass the default flow, an id from flows(), or — the TUI — a selection re-validated before every frame (C17.R3)'),
+        (r'StateUpdater::update_for_probe$', 'api', 'insert', 'samples.insert(0, …): index 0 is always ≤ len'),
+        (r'StateUpdater::update_for_probe$', 'api', 'from_secs_f64', 'Duration::from_secs_f64(|dur_ms − last_ms| / 1000): the absolute value of a difference of two finite, non-negative millisecond values'),
         (r'Hop::|state::Hop', 'Overflow:Add', r'Add (usize|u64)', 'per-hop counters: one increment per probe, cannot reach 2^64'),
         (r'StateUpdater::update_for_probe$', 'Overflow:Add', r'Add usize', 'per-hop counters: one increment per probe, cannot reach 2^64'),
         (r'StateUpdater::apply$', 'Overflow:Add', r'Add usize', 'round counter: one increment per round'),
